@@ -1243,21 +1243,25 @@ def gen_ambig_candidate(rng):
 # ---------------------------------------------------------------------------
 # case-centred programs (C08) and wait-centred programs (C16) for the simulation validator
 # ---------------------------------------------------------------------------
-def _rx(r, alphabet, depth=0, nset=True):
-    """small regexes over a small alphabet, classes and (unless nset=False) inverted sets included"""
-    k = r.choice((["c", "c", "set", "nset", "w", "seq", "alt", "plus", "star", "opt", "rep"] if depth < 2 else ["c", "set", "nset"]) if nset else
-                 (["c", "c", "set", "w", "seq", "alt", "plus", "star", "opt", "rep"] if depth < 2 else ["c", "set"]))
+def _rx(r, alphabet, depth=0, nset=True, closed=False):
+    """small regexes over a small alphabet, classes and (unless nset=False) inverted sets included; closed=True: no
+    repetition operators (every match has a definite end)"""
+    kinds = ["c", "c", "set", "nset", "w", "seq", "alt", "plus", "star", "opt", "rep"] if depth < 2 else ["c", "set", "nset"]
+    if not nset: kinds = [k for k in kinds if k != "nset"]
+    if closed: kinds = [k for k in kinds if k not in ("plus", "star", "opt")]
+    k = r.choice(kinds)
     ch = lambda: r.choice(alphabet)
     if k == "c": return ("c", ch())
     if k == "set": a = ch(); return ("set", [(min(a, ch()), a)], False)
     if k == "nset": return ("set", [(ch(),) * 2] + ([(ch(),) * 2] if r.random() < 0.5 else []), True)
     if k == "w": return ("cls", r.choice(["\\w", "\\d"]))
-    if k == "seq": return ("seq", [_rx(r, alphabet, depth + 1, nset) for _ in range(r.randint(2, 3))])
-    if k == "alt": return ("alt", [_rx(r, alphabet, depth + 1, nset) for _ in range(2)])
-    if k == "plus": return ("plus", _rx(r, alphabet, depth + 1, nset))
-    if k == "star": return ("seq", [_rx(r, alphabet, depth + 1, nset), ("star", _rx(r, alphabet, depth + 1, nset))])
-    if k == "opt": return ("seq", [_rx(r, alphabet, depth + 1, nset), ("opt", _rx(r, alphabet, depth + 1, nset))])
-    return ("rep", _rx(r, alphabet, depth + 1, nset), r.randint(1, 2), r.choice([2, 3]))
+    if k == "seq": return ("seq", [_rx(r, alphabet, depth + 1, nset, closed) for _ in range(r.randint(2, 3))])
+    if k == "alt": return ("alt", [_rx(r, alphabet, depth + 1, nset, closed) for _ in range(2)])
+    if k == "plus": return ("plus", _rx(r, alphabet, depth + 1, nset, closed))
+    if k == "star": return ("seq", [_rx(r, alphabet, depth + 1, nset, closed), ("star", _rx(r, alphabet, depth + 1, nset, closed))])
+    if k == "opt": return ("seq", [_rx(r, alphabet, depth + 1, nset, closed), ("opt", _rx(r, alphabet, depth + 1, nset, closed))])
+    n = r.randint(1, 2)
+    return ("rep", _rx(r, alphabet, depth + 1, nset, closed), n, n if closed else r.choice([2, 3]))
 
 
 def gen_case_program(rng):
@@ -1276,8 +1280,10 @@ def gen_case_program(rng):
         k = r.choice(["lit", "lit", "casei", "re", "re"] if regex_ok else ["lit", "lit", "casei"])
         if k == "lit": return ("lit", lit())
         if k == "casei": return ("casei", lit())
-        # (known finding C08: an inverted class in a clause pattern loses its rejected symbols in the merged decider)
-        return ("re", _rx(r, AB, nset=False))
+        # (known findings C08: an inverted class in a clause pattern loses its rejected symbols in the merged decider; a
+        # clause pattern whose matches can be extended runs its clause once per completion - so non-greedy clause patterns
+        # are generated without repetition operators)
+        return ("re", _rx(r, AB, nset=False, closed=not greedy))
     outs = [{"type": "int", "name": "n0", "signed": None, "width": None, "default": None}]
     body = [("match", ("lit", b"q"))]
     if greedy:
